@@ -224,6 +224,9 @@ class LoaderConc(Engine):
             "conc s s - - 1 tpause 4 3",     # task parked after the map write, before the marker removal: a new caller hits
             "conc a a - - 2 tpause 5 1",
             "conc a s - - 1 tpause 5 3",
+            "conc s s - - 1 reinv 6",        # marker removal precedes completion; invalidate + fetch_with starts a NEW load
+            "conc a a - - 2 reinv 6",
+            "conc s a - - 1 reinv 2",
             "conc s s - - 1 late 7",         # F-22 forced
             "conc a a - - 1 late 7",
             "conc s a - - 2 late 3",
@@ -232,7 +235,7 @@ class LoaderConc(Engine):
     def gen(self, rng, tier):
         L, H = rng.pick(["s", "a"]), rng.pick(["s", "a"])
         sh = rng.pick([1, 2, 4])
-        sc = rng.weighted([("herd", 30), ("two", 25), ("during", 15), ("reload", 10), ("expire", 10), ("stale", 15), ("tpause", 10)])
+        sc = rng.weighted([("herd", 30), ("two", 25), ("during", 15), ("reload", 10), ("expire", 10), ("stale", 15), ("tpause", 10), ("reinv", 12)])
         m = 1 + rng.below(6)
         k = rng.below(8)
         ttl, grace = "-", "-"
@@ -249,8 +252,8 @@ class LoaderConc(Engine):
             args = [k, k2, m]
         elif sc == "during":
             args = [k, m, 1 + rng.below(4)]
-        elif sc == "reload":
-            args = [k, m]
+        elif sc in ("reload", "reinv"):
+            args = [k, m] if sc == "reload" else [k]
         elif sc == "tpause":
             args = [k, rng.pick([1, 3])]
         elif sc == "expire":
@@ -297,7 +300,11 @@ class LoaderConc(Engine):
                 kv, n = e.split("*")
                 k, v = kv.split(":")
                 rets.setdefault(int(k), {})[int(v)] = int(n)
+        probe = None
         if parts[-1].startswith("early"):
+            parts = parts[:-1]
+        elif parts[-1].startswith("probe"):
+            probe = parts[-1].split()[1]
             parts = parts[:-1]
         runs, res, cc = parse_tail(parts[1:])
         last = parts[-1].split()
@@ -342,6 +349,21 @@ class LoaderConc(Engine):
             expect(args[0], 2, [1 + args[1], 1])
         elif sc == "tpause":
             expect(args[0], 1, [2])
+        elif sc == "reinv":
+            k = args[0]
+            ids = rets.get(k, {})
+            if probe == "ready":
+                hits.append(("C15:stale-join-after-invalidate",
+                             "key %d: with the loader task parked before its marker removal, invalidate(%d); fetch_with(%d) returned at once with id %s and no loader run: "
+                             "the call joined a load that was already completed (callers released while the future is still registered as in flight)" % (k, k, k, sorted(ids))))
+            if runs.get(k, 0) == 1 and len(ids) == 1:
+                hits.append(("C15:stale-join-after-invalidate",
+                             "key %d: fetch_with; invalidate; fetch_with -- the miss after the invalidation returned the invalidated id %s and the loader ran %d time(s) instead of 2" % (
+                                 k, sorted(ids), runs.get(k, 0))))
+            elif probe != "ready":
+                expect(k, 2, [2, 1])
+            elif not hits:
+                expect(k, 2, [2, 1])
         elif sc == "late":
             # two concurrent callers of one key, nothing invalidated: one load, one value
             expect(args[0], 1, [2], late=True)
